@@ -676,7 +676,7 @@ func (e *c20Env) run(id int, abs []c20Abs) (ev *c20Event) {
 		return ev
 	}
 	ev.Accepted = true
-	if len(muts) > 1 {
+	if len(muts) >= 1 {
 		for _, mu := range muts {
 			if why, ok := e.bad[mu.F+"="+mu.C]; ok {
 				ev.Ran = append(ev.Ran, "inferred")
@@ -734,7 +734,17 @@ func (e *c20Env) exercise(c *configuration, muts []c20Mut, ev *c20Event) {
 		if sockets {
 			ev.Ran = append(ev.Ran, "sockets")
 		}
-		add(e.exService(c, sockets)...)
+		u, sockFail := e.exService(c, sockets, 1500*time.Millisecond)
+		if sockFail {
+			// An unserviceable limit fails every time.  A lost datagram, a
+			// stalled machine or a port shared with another SO_REUSEPORT
+			// socket (the servers set that option, and so do the servers of
+			// other test processes) does not: once more, on fresh ports,
+			// with more patience.
+			ev.Ran = append(ev.Ran, "sockets-again")
+			u, _ = e.exService(c, sockets, 4*time.Second)
+		}
+		add(u...)
 		lap()
 	}
 	if c20Touches(muts, "filters/") {
@@ -848,8 +858,9 @@ func (c *c20ErrColl) panics() (res []string) {
 // exService builds the DNS handlers and (optionally) the listening servers the
 // way builder.initRateLimiter / initMsgConstructor / initDNS do, from the real
 // conversions, and sends representative queries.
-func (e *c20Env) exService(c *configuration, sockets bool) (unsafe []string) {
+func (e *c20Env) exService(c *configuration, sockets bool, wait time.Duration) (unsafe []string, sockFail bool) {
 	ctx := context.Background()
+	dnsAddr, doqAddr := c20FreeAddr(), c20FreeAddr()
 	errColl := &c20ErrColl{}
 	oldReg, oldGath := prometheus.DefaultRegisterer, prometheus.DefaultGatherer
 	reg := prometheus.NewRegistry()
@@ -875,10 +886,10 @@ func (e *c20Env) exService(c *configuration, sockets bool) (unsafe []string) {
 
 		srvs := servers{{
 			Name: "verif_dns", Protocol: srvProtoDNS, LinkedIPEnabled: true,
-			BindAddresses: []netip.AddrPort{netip.MustParseAddrPort("127.0.0.1:0")},
+			BindAddresses: []netip.AddrPort{dnsAddr},
 		}, {
 			Name: "verif_doq", Protocol: srvProtoQUIC,
-			BindAddresses: []netip.AddrPort{netip.MustParseAddrPort("127.0.0.1:0")},
+			BindAddresses: []netip.AddrPort{doqAddr},
 		}}
 		if err := (serverGroups{{
 			DDR: c.ServerGroups[0].DDR, TLS: c.ServerGroups[0].TLS, Name: "verif", FilteringGroup: "default",
@@ -911,7 +922,7 @@ func (e *c20Env) exService(c *configuration, sockets bool) (unsafe []string) {
 		}
 	})
 	if u != "" {
-		return []string{u}
+		return []string{u}, false
 	}
 
 	// in-process queries through the plain-DNS handler (the one the global
@@ -962,27 +973,31 @@ func (e *c20Env) exService(c *configuration, sockets bool) (unsafe []string) {
 	}
 	unsafe = append(unsafe, errColl.panics()...)
 	if len(unsafe) > 0 || !sockets {
-		return unsafe
+		return unsafe, false
 	}
-	// An unserviceable limit fails every time; a lost datagram or two
-	// SO_REUSEPORT sockets that were given the same ephemeral port do not.
-	// Only failures of that kind (no UDP answer, no QUIC handshake) are retried.
-	var su []string
-	for attempt := 0; attempt < 3; attempt++ {
-		prometheus.DefaultRegisterer = prometheus.NewRegistry()
-		su = e.exSockets(c, b, handlers, srvGrps, errColl)
-		retry := len(su) > 0
-		for _, x := range su {
-			if !strings.Contains(x, "UDP query") && !strings.Contains(x, "DoQ query: dial") &&
-				!strings.HasPrefix(x, "environment:") {
-				retry = false
-			}
+	su := e.exSockets(c, b, handlers, srvGrps, errColl, wait)
+	return append(unsafe, su...), len(su) > 0
+}
+
+// c20FreeAddr returns a loopback address whose port is free for TCP and UDP.
+// The probe sockets are bound WITHOUT SO_REUSEPORT, so the port is not one
+// that another SO_REUSEPORT listener (of this or another process) shares.
+func c20FreeAddr() (ap netip.AddrPort) {
+	for i := 0; i < 50; i++ {
+		l, err := net.Listen("tcp", "127.0.0.1:0")
+		if err != nil {
+			continue
 		}
-		if !retry {
-			break
+		port := l.Addr().(*net.TCPAddr).Port
+		pc, err := net.ListenPacket("udp", "127.0.0.1:"+strconv.Itoa(port))
+		_ = l.Close()
+		if err != nil {
+			continue
 		}
+		_ = pc.Close()
+		return netip.AddrPortFrom(netip.MustParseAddr("127.0.0.1"), uint16(port))
 	}
-	return append(unsafe, su...)
+	panic("c20: no free loopback port")
 }
 
 func (e *c20Env) handlersConfig(
@@ -1096,15 +1111,16 @@ func (e *c20Env) exSockets(
 	handlers dnssvc.Handlers,
 	srvGrps []*agd.ServerGroup,
 	errColl *c20ErrColl,
+	wait time.Duration,
 ) (unsafe []string) {
 	ctx := context.Background()
 	lsnrs := map[string]dnssvc.Listener{}
 	var svc *dnssvc.Service
 	started := false
 	u := ""
-	// The plain-DNS server binds UDP port 0 and then the same TCP port, which
-	// may be taken: retry (as dnsservertest does).
-	for attempt := 0; attempt < 8; attempt++ {
+	// The ports were free a moment ago (c20FreeAddr); should one have been
+	// taken since, starting fails, which is the environment's doing.
+	for attempt := 0; attempt < 1; attempt++ {
 		u = c20Recover("starting the DNS service", func() {
 			var err error
 			svc, err = dnssvc.New(&dnssvc.Config{
@@ -1133,14 +1149,12 @@ func (e *c20Env) exSockets(
 			}
 			started = true
 		})
-		if !strings.Contains(u, "address already in use") {
-			break
+		if strings.Contains(u, "address already in use") {
+			sctx, cancel := context.WithTimeout(ctx, time.Second)
+			_ = c20Recover("shutdown", func() { _ = svc.Shutdown(sctx) })
+			cancel()
+			return []string{"environment: " + u}
 		}
-		// listeners started before the failing one stay open; shut down
-		sctx, cancel := context.WithTimeout(ctx, time.Second)
-		_ = c20Recover("shutdown", func() { _ = svc.Shutdown(sctx) })
-		cancel()
-		prometheus.DefaultRegisterer = prometheus.NewRegistry()
 	}
 	defer func() {
 		if svc != nil && started {
@@ -1152,7 +1166,6 @@ func (e *c20Env) exSockets(
 	if u != "" {
 		return []string{u}
 	}
-	const wait = 1500 * time.Millisecond
 	if a, b := lsnrs["verif_dns"], lsnrs["verif_doq"]; a != nil && b != nil {
 		if pa, pb := a.LocalUDPAddr().(*net.UDPAddr), b.LocalUDPAddr().(*net.UDPAddr); pa != nil && pb != nil && pa.Port == pb.Port {
 			return []string{"environment: both UDP listeners were given port " + strconv.Itoa(pa.Port)}
